@@ -1,15 +1,52 @@
 (** C01 -- Expressions evaluate to the value their operator tree denotes.
-    PARTIAL.  Proved on the model: what each operator denotes for every pair of operand values ([denote_bin]: IEEE-754
+    Proved on the model: the parser inverts rendering for EVERY tree (C01_every_tree_reads_back, Proofs/ParseRender.v, by
+    induction over trees against the fuelled recursive-descent parser: insert exactly the parentheses the precedence
+    ladder requires -- left operands at least as tight, right operands strictly tighter, so a op b op c is the left-nested
+    tree --, render, parse: the tree comes back, up to Group nodes and line/file metadata, all node kinds, any depth); what
+    each operator denotes for every pair of operand values ([denote_bin]: IEEE-754
     binary64 via SpecFloat, fmod, concatenation, the equality table, a type error for every other combination), that
     grouping is transparent, and how the parser builds the tree (the precedence ladder table, one level per operator,
-    left folding within a level, parentheses = a whole expression wrapped in a transparent Group node).  NOT proved: the
-    round-trip theorem "parsing the minimally parenthesised rendering of any tree returns that tree" (induction over
-    trees against the fuelled recursive-descent parser); it is covered by the expr stream (random trees rendered from the
-    precedence table, unparenthesised same-level and mixed-level chains) and by the implementation-only check that
-    redundant parentheses never change the result. *)
+    left folding within a level, parentheses = a whole expression wrapped in a transparent Group node).  Tied to the code
+    by the expr stream (random trees rendered from the precedence table, unparenthesised same-level and mixed-level chains)
+    and the implementation-only check that redundant parentheses never change the result. *)
 From Pakhi Require Import Base Float64 Syntax Tables Lexer Parser Interp.
-From Pakhi.Proofs Require Import ExprSem.
+From Pakhi.Proofs Require Import ExprSem ParseRender.
 Local Open Scope nat_scope.
+
+(* the parser inverts rendering.  [wfb lvl e]: e needs no further parentheses at level lvl; [render e]: its tokens;
+   [stop lvl k]: the next token k does not continue an expression at that level; [erase]: forget line/file metadata *)
+Theorem C01_parser_inverts_rendering : forall last mods e lvl rest prev, lvl <= 8 -> wfb lvl e = true ->
+  rest <> [] -> stop lvl (t_kind (hd last rest)) = true ->
+  exists n e' t', pexpr n lvl (mkPs (render e ++ rest) prev last mods) = Ok (e', mkPs rest (Some t') last mods) /\ erase e' = erase e.
+Proof. intros last mods e lvl rest prev Hl Hw. exact (parse_render_round_trip last mods (size e) e (le_n _) lvl Hl Hw rest prev). Qed.
+Print Assumptions C01_parser_inverts_rendering.
+
+(* every tree the grammar can express ([shape_ok]: no nil literal, index bases are variables, as many values as keys):
+   [paren 0 e] inserts the parentheses the ladder requires (as Group nodes) and nothing else ([C01_paren_adds_only_groups]) *)
+Theorem C01_every_tree_reads_back : forall e rest prev last mods, shape_ok e = true -> rest <> [] -> stop 0 (t_kind (hd last rest)) = true ->
+  exists n e' t', expression n (mkPs (render (paren 0 e) ++ rest) prev last mods) = Ok (e', mkPs rest (Some t') last mods) /\
+                  ungroup (erase e') = ungroup (erase e).
+Proof. exact every_tree_reads_back. Qed.
+Print Assumptions C01_every_tree_reads_back.
+
+Theorem C01_paren_adds_only_groups : forall e lvl, ungroup (paren lvl e) = ungroup e.
+Proof. exact paren_ungroup. Qed.
+Print Assumptions C01_paren_adds_only_groups.
+
+(* more fuel never changes a successful parse *)
+Theorem C01_parse_fuel_monotone : forall f f' lvl s r, f <= f' -> pexpr f lvl s = Ok r -> pexpr f' lvl s = Ok r.
+Proof. intros f f' lvl s r H. apply (proj1 (mono_ge f f' H)). Qed.
+Print Assumptions C01_parse_fuel_monotone.
+
+(* non-vacuity: a - b - c * d and (a - b) - (c * d) have different minimal renderings but the chain needs no parentheses *)
+Example C01_paren_instances :
+  let v x := EVar [x] p0 in
+  let t := EBin BSub (EBin BSub (v 97%N) (v 98%N) p0) (EBin BMul (v 99%N) (v 100%N) p0) p0 in
+  let u := EBin BSub (v 97%N) (EBin BSub (v 98%N) (v 99%N) p0) p0 in
+  paren 0 t = t /\ wfb 0 t = true /\ wfb 0 u = false /\
+  paren 0 u = EBin BSub (v 97%N) (EGroup (EBin BSub (v 98%N) (v 99%N) p0) p0) p0 /\
+  map t_kind (render (paren 0 u)) = [TIdent; TMinus; TLParen; TIdent; TMinus; TIdent; TRParen].
+Proof. vm_compute. repeat split. Qed.
 
 Theorem C01_operators_left_operand_first : forall code ev cl o l r p m lv m1 rv m2,
   In o [BAdd; BSub; BEq; BNe; BLt; BLe; BGt; BGe] ->
